@@ -604,7 +604,7 @@ class Community(EZPackOverlay):
         probable_peer = self.network.get_verified_by_address(source_address)
         if probable_peer:
             probable_peer.last_response = time()
-        if self._prefix != data[:22]:
+        if self._prefix != data[:22] or len(data) < 23:
             return
         msg_id = data[22]
         handler = self.decode_map[msg_id]
